@@ -260,16 +260,26 @@ def gen_poll(ctx):
 
 
 def gen_urls(ctx):
+    """-> list of (raw url, kind, patterns to try it against)"""
     rng, thorough = ctx.rng, ctx.tier == "thorough"
     pool = url_pool()
-    urls = list(pool)
+    out = [(u, "pool", URL_PATTERNS) for u in pool]
+    derived = []
+    for pat in URL_PATTERNS:          # hosts around each pattern's own suffix, so that many sessions proceed
+        suf = new_matcher(pat)[1]
+        for host in [suf, b"x" + suf, b"x." + suf, suf + b"x", suf[1:], suf.upper()]:
+            for sch, tail in [(b"wss", b"/"), (b"ws", b"/"), (b"wss", b":8443/p?q=1"), (b"https", b"/")]:
+                u = sch + b"://" + host + tail
+                derived.append(u)
+                out.append((u, "derived", [pat, rng.choice(URL_PATTERNS)]))
     for _ in range(150 if not thorough else 2500):
-        urls.append(mutate(rng, rng.choice(pool[1:12])))
+        out.append((mutate(rng, rng.choice(pool[1:12] + derived)), "mutated", rng.sample(URL_PATTERNS, 3)))
     for _ in range(60 if not thorough else 600):
         sch = rng.choice([b"wss", b"wss", b"ws", b"WSS", b"https", b""])
-        urls.append(sch + rng.choice([b"://", b"://", b":", b":/"]) + rng.choice([b"", b"", b"u@", b"u:p@"]) + rand_host(rng)
-                    + rng.choice([b"", b"/", b":443/", b":80", b"/p?q#f"]))
-    return urls
+        u = (sch + rng.choice([b"://", b"://", b":", b":/"]) + rng.choice([b"", b"", b"u@", b"u:p@"]) + rand_host(rng)
+             + rng.choice([b"", b"/", b":443/", b":80", b"/p?q#f"]))
+        out.append((u, "random", rng.sample(URL_PATTERNS, 3)))
+    return out
 
 
 def run(ctx):
@@ -294,19 +304,18 @@ def run(ctx):
     # (iii) proxy decision: library boundary first, then runSession / datachannelHandler
     exe_px = vlib.go_test_build("./proxy/lib")
     urls = gen_urls(ctx)
-    rc, parsed, err = vlib.run_impl(exe_nm, ["%s urlparse %s" % (AREA, hx(u)) for u in urls])
+    rc, parsed, err = vlib.run_impl(exe_nm, ["%s urlparse %s" % (AREA, hx(u)) for u, _, _ in urls])
     if rc != 0 or len(parsed) != len(urls):
         raise RuntimeError("urlparse driver failed: " + err[-300:])
     cheap, ckinds, full, fkinds = [], [], [], []
     rng = ctx.rng
-    for i, (u, p) in enumerate(zip(urls, parsed)):
+    for (u, ukind, pats), p in zip(urls, parsed):
         raw, rest = p.split(" ", 1)
-        kind = "relay-url-" + ("pool" if i < len(url_pool()) else "mutated") + ("-unparsable" if rest == "E" else "")
-        pats = URL_PATTERNS if i < len(url_pool()) else rng.sample(URL_PATTERNS, 3)
+        kind = "relay-url-" + ukind + ("-unparsable" if rest == "E" else "")
         for pat in pats:
             for allow in "01":
                 args = "%s %s %s %s" % (hx(pat), allow, raw, rest)
-                full.append("%s urlfull %s" % (AREA, args)); fkinds.append(kind + "-dial-observed")
+                full.append("%s urlfull %s" % (AREA, args)); fkinds.append(kind + "-dial-monitored")
                 if rng.random() < 0.25:
                     cheap.append("%s url %s" % (AREA, args)); ckinds.append(kind)
     ctx.correspond(exe_px, cheap, ckinds, label="proxy-runSession", prop=prop, key_of=key_of, impl_args=TEST_ARGS)
